@@ -5,9 +5,9 @@ package harness
 // on the same run (a check only counts the violations of its own property).
 
 import (
-	"github.com/flant/shell-operator/pkg/task/queue"
 	"context"
 	"fmt"
+	"github.com/flant/shell-operator/pkg/task/queue"
 	"sort"
 	"strconv"
 	"strings"
@@ -32,6 +32,8 @@ func init() {
 		{WL: "opsim", Cfg: "prop=C02,t=T1", Quick: 120, Thor: 4000},
 		{WL: "opsim", Cfg: "prop=C02,restart=1", Quick: 120, Thor: 4000},
 		{WL: "opsim", Cfg: "prop=C02,focus=snap,k=400", Quick: 200, Thor: 6000},
+		// namespaces that stop matching (label removed), are deleted with their objects, and come back
+		{WL: "opsim", Cfg: "prop=C02,nsdel=1", Quick: 200, Thor: 6000},
 	}
 	plans["C17"] = []Part{
 		{WL: "opsim", Cfg: "prop=C17", Quick: 300, Thor: 8000},
@@ -82,6 +84,7 @@ type opsimOpts struct {
 	StartupFail bool
 	Shutdown    bool // a task requests Shutdown() at a tape-chosen scheduler step
 	Settings    bool // hooks with settings.executionMinInterval / executionBurst
+	Patches     bool // some executions write a patch; the API server rejects the write of some of them
 	Slow04      bool // hooks take a few hundred ms so that events pile up behind a running task
 }
 
@@ -98,6 +101,7 @@ func presetFor(prop string) opsimOpts {
 	case "C04", "C07":
 		o.FailPct, o.Sched, o.StartupFail = 40, 40, true
 		o.MaxKube, o.Writes, o.Slow04 = 3, 20, true
+		o.Patches = prop == "C04"
 	case "C06":
 		o.MaxHooks, o.Startup, o.Sched, o.FailPct, o.StartupFail, o.Writes = 6, 70, 50, 20, true, 6
 	case "C06many":
@@ -231,6 +235,12 @@ func genScenario(e *Env, o opsimOpts) *Scenario {
 					s.IncludeSnapshots = []string{h.Kube[wl.Choose(len(h.Kube))].Name}
 				}
 				h.Sched = append(h.Sched, s)
+			}
+			if o.SharedCron && wl.Bias(1, 3) {
+				// `name` is optional: every unnamed schedule binding of a hook is called "schedule"
+				for k := range h.Sched {
+					h.Sched[k].Name, h.Sched[k].Unnamed = "schedule", true
+				}
 			}
 		}
 		if o.Probe && len(h.Kube) > 0 {
@@ -444,6 +454,17 @@ func runOpsimWL(e *Env) {
 		} else {
 			x.Dur = time.Duration(wl.Choose(4)) * 100 * time.Millisecond
 		}
+		if opts.Patches && len(x.Ctxs) > 0 && fl.Choose(5) == 0 {
+			// exit 0 with a valid patch; for half of them the API server rejects the write: the outputs
+			// cannot be applied, which is a failed run like any other
+			x.PatchObj = "px-" + strconv.Itoa(x.N)
+			x.Patch = fmt.Sprintf(`{"operation":"CreateOrUpdate","object":{"apiVersion":"v1","kind":"Secret","metadata":{"name":%q,"namespace":"default"},"data":{}}}`, x.PatchObj)
+			if fl.Choose(2) == 0 {
+				api.mu.Lock()
+				api.FailWriteName[x.PatchObj]++
+				api.mu.Unlock()
+			}
+		}
 		if opts.FailPct > 0 && len(x.Ctxs) > 0 {
 			key := x.Hook + "|" + ctxIdentity(x.Ctxs[0])
 			if _, ok := r.failPlan[key]; !ok {
@@ -465,8 +486,9 @@ func runOpsimWL(e *Env) {
 		}
 	}
 
+	nsRemoval := e.CfgIs("nsdel", "1")
 	mutDone, settled, settling := false, false, false
-	shutdownReturned := false
+	shutdownReturned, shutdownCalled, shutdownHung := false, false, false
 	var shutdownCalledAt, shutdownReturnedAt time.Duration
 	simrt.GoNamed("boot", func() {
 		startMut := func() {
@@ -480,6 +502,30 @@ func runOpsimWL(e *Env) {
 					if opts.FailPct > 0 && wl.Bias(1, 6) {
 						// outlast a back-off: some changes happen after a failed execution has been retried
 						simrt.Sleep(time.Duration(4+wl.Choose(8)) * time.Second)
+					}
+					if nsRemoval && wl.Bias(1, 8) {
+						// a namespace stops matching (label removed) or goes away with everything in it,
+						// and may come back later
+						n := []string{"nsa", "nsb"}[wl.Choose(2)]
+						switch {
+						case api.Get(gvrNS, "", n) == nil:
+							api.ApplyNamespace(n, map[string]string{"env": "prod"})
+							nsLabelled[n] = true
+							simrt.Count("probe:namespace-added-after-start")
+						case wl.Choose(2) == 0:
+							api.DeleteNamespace(n)
+							nsLabelled[n] = false
+							simrt.Count("probe:namespace-deleted")
+						case nsLabelled[n]:
+							api.ApplyNamespace(n, nil)
+							nsLabelled[n] = false
+							simrt.Count("probe:namespace-unlabelled")
+						default:
+							api.ApplyNamespace(n, map[string]string{"env": "prod"})
+							nsLabelled[n] = true
+							simrt.Count("probe:namespace-labelled-after-start")
+						}
+						continue
 					}
 					if opts.NsDynamic && wl.Bias(1, 12) {
 						if api.Get(gvrNS, "", "nsb") == nil {
@@ -557,6 +603,7 @@ func runOpsimWL(e *Env) {
 				}
 				simrt.Count("fault:shutdown-requested")
 				shutdownCalledAt = e.Since()
+				shutdownCalled = true
 				o.Op.Shutdown()
 				shutdownReturnedAt = e.Since()
 				shutdownReturned = true
@@ -593,6 +640,10 @@ func runOpsimWL(e *Env) {
 		if opts.Shutdown {
 			// the run lasts until Shutdown() has returned, every execution in flight has ended and the
 			// workers had their time to notice; events and ticks keep arriving meanwhile
+			if shutdownCalled && !shutdownReturned && e.Since()-shutdownCalledAt > 3*time.Minute {
+				shutdownHung = true // three simulated minutes: far beyond the wait time-out of the shutdown sequence
+				return true
+			}
 			if !(shutdownReturned && mutDone && o.inFlight == 0) {
 				return false
 			}
@@ -624,6 +675,12 @@ func runOpsimWL(e *Env) {
 	panicsToViolations(e, prop)
 	lockStarvation(e, prop)
 	e.Out.NonTrivial = s.Preempts > 0 || opts.Faults || len(o.Execs) > 2
+	for _, x := range o.Execs {
+		if x.PatchObj != "" && !x.Fail && api.FaultedNames[x.PatchObj] > 0 {
+			x.Fail = true // its patch could not be applied
+			simrt.Count("fault:patch-apply-failed")
+		}
+	}
 	if o.Op != nil && o.BootErr == nil && len(s.Panics) == 0 {
 		r.indexMonitors()
 		oracleC09(r)
@@ -637,6 +694,21 @@ func runOpsimWL(e *Env) {
 		oracleC18(r)
 		if opts.Shutdown && shutdownReturned && err == nil {
 			oracleC17(r, shutdownCalledAt, shutdownReturnedAt)
+		}
+		if shutdownHung {
+			st := ""
+			for _, qn := range o.queueNames() {
+				if q := o.Op.TaskQueues.GetByName(qn); q != nil {
+					st += fmt.Sprintf(" %s=%q", qn, q.GetStatus())
+				}
+			}
+			nAfter := 0
+			for _, x := range o.Execs {
+				if x.Start > shutdownCalledAt {
+					nAfter++
+				}
+			}
+			e.Viol("C17", "H4", "shutdown-did-not-return", "Shutdown() was called at %v and had not returned %v later; %d executions started meanwhile; queue status:%s", shutdownCalledAt, e.Since()-shutdownCalledAt, nAfter, st)
 		}
 	}
 	restarted := false
@@ -774,4 +846,3 @@ func (r *OpRun) ctxQueue(hook string, c Ctx) string {
 	}
 	return b.Sched.Queue
 }
-
